@@ -25,6 +25,7 @@ def run(ctx: Ctx):
     ctx.not_decided = ["floating point rounding; non-negativity follows from the closed form and is not separately checked"]
     identity(ctx)
     non_negative(ctx)
+    non_negative_stripe(ctx)
     variance_blocks(ctx)
     construction_sites(ctx)
     std_err(ctx)
@@ -117,9 +118,66 @@ def non_negative(ctx: Ctx):
 
     params = [p_ for p_ in m.params if p_ not in ("self", "cls")]
     ni = params[3] if len(params) == 5 else "Ni"
-    ok = (not is_difference) or clamped(ign.node) or clamped(m.node, ni)
-    ctx.ob("variance.non-negative", where, "the ignored count is clamped at zero" if ok else "Ni = Nt - Np - Nn enters the variance as computed", "a difference of float sums is clamped at zero before it weights a square", ok,
+    # where the ignored count itself is clamped, the clamp has to be the LAST step: `np.maximum(Nt - Np, 0) - Nn` floors an
+    # intermediate result and still goes one rounding error below zero once Nn is subtracted
+    inner_only = False
+    if clamped(ign.node) and not clamped(m.node, ni):
+        body = SUMMARIZER.summarize(ign.node)
+        leaves = [x for x in ast.walk(body) if isinstance(x, (ast.BinOp, ast.Call)) and not isinstance(getattr(x, "func", None), ast.Name)]
+        elems = []
+        def collect(e):
+            if isinstance(e, (ast.List, ast.Tuple)):
+                for x in e.elts:
+                    collect(x)
+            else:
+                elems.append(e)
+        collect(body)
+        is_clamp = lambda x: isinstance(x, ast.Call) and u(x.func) in ("np.maximum", "np.clip", "np.fmax")
+        inner_only = any(isinstance(x, ast.BinOp) and isinstance(x.op, ast.Sub) and any(is_clamp(y) for y in ast.walk(x)) for x in elems)
+    ok = ((not is_difference) or clamped(ign.node) or clamped(m.node, ni)) and not inner_only
+    ctx.ob("variance.non-negative", where, "the ignored count is clamped at zero" if ok else ("a subtraction FOLLOWS the clamp: the floor is on an intermediate result" if inner_only else "Ni = Nt - Np - Nn enters the variance as computed"), "a difference of float sums is clamped at zero before it weights a square", ok,
            "an all-categories subtotal of a weighted table gets variance -2e-16: standard deviation, standard error and margin of error are NaN although the proportion (1) and the base are defined")
+
+
+def non_negative_stripe(ctx: Ctx):
+    """The same clause for the strand: `_TableProportionVariances.subtotal_values` computes the ignored count as a local
+    difference of float sums; it is clamped at zero where it is computed or wherever it is used."""
+    SM_ = "stripe/measure.py"
+    ci = ctx.repo.cls(SM_, "_TableProportionVariances")
+    m = ctx.repo.lookup(ci, "subtotal_values")
+    where = f"{SM_}::_TableProportionVariances.subtotal_values [Ni]"
+    if m is None:
+        ctx.undecided("variance.non-negative", where, "member not found", "")
+        return
+    is_clamp = lambda x: isinstance(x, ast.Call) and u(x.func) in ("np.maximum", "np.clip", "np.fmax") and any(isinstance(a, ast.Constant) and a.value == 0 for a in x.args)
+    diffs = {}
+    for n in ast.walk(m.node):
+        if isinstance(n, ast.Assign) and len(n.targets) == 1 and isinstance(n.targets[0], ast.Name):
+            v = n.value
+            subs = [x for x in ast.walk(v) if isinstance(x, ast.BinOp) and isinstance(x.op, ast.Sub)]
+            # a difference of two or more named counts (Nt - Np - Nn), not `1 - p`
+            if isinstance(v, ast.BinOp) and isinstance(v.op, ast.Sub) and len(subs) >= 2 and not any(isinstance(x, ast.Constant) for x in ast.walk(v)):
+                diffs[n.targets[0].id] = n
+            elif is_clamp(v):
+                pass
+    if not diffs:
+        # clamped at the assignment, or computed elsewhere
+        clamped_assign = any(isinstance(n, ast.Assign) and is_clamp(n.value) for n in ast.walk(m.node))
+        ctx.ob("variance.non-negative", where, "the ignored count is clamped where it is computed" if clamped_assign else "no local difference of counts found", "a difference of float sums is clamped at zero before it weights a square", True if clamped_assign else None)
+        return
+    parents = {}
+    for p_ in ast.walk(m.node):
+        for c in ast.iter_child_nodes(p_):
+            parents[id(c)] = p_
+    bad = []
+    for name in diffs:
+        for x in ast.walk(m.node):
+            if isinstance(x, ast.Name) and x.id == name and isinstance(x.ctx, ast.Load):
+                par = parents.get(id(x))
+                if not is_clamp(par):
+                    bad.append(f"{name} used as computed in {u(parents.get(id(par), par))[:60]}")
+    ctx.ob("variance.non-negative", where, bad[:2] or "every use of the ignored count is clamped at zero", "a difference of float sums is clamped at zero before it weights a square", not bad,
+           "a subtotal spanning every non-empty category of a weighted strand has p = 1 + 1 ulp and Ni = -1 ulp: variance -2e-16, standard deviation / error / margin of error NaN")
 
 
 def variance_blocks(ctx: Ctx):
